@@ -13,6 +13,7 @@ from . import sched, simfs, simnet
 
 REPO = os.environ.get("VERIF_REPO", "/repo")
 _booted = False
+TEMP_NAMES = None
 
 XDG = {
     "XDG_CONFIG_HOME": simfs.ROOT + "/cfg",
@@ -87,7 +88,8 @@ def bootstrap(coop_locks=True):
         def __next__(self):
             self.n += 1
             return "tmp%06d" % self.n
-    tempfile._name_sequence = _Names()
+    global TEMP_NAMES
+    TEMP_NAMES = tempfile._name_sequence = _Names()
     tempfile._get_candidate_names = lambda: tempfile._name_sequence
     if REPO not in sys.path[:1]:
         sys.path.insert(0, REPO)
